@@ -6,9 +6,12 @@ import (
 	"encoding/json"
 	"fmt"
 	"math/big"
+	"os"
+	"runtime"
 	"sort"
 	"strings"
 	"sync"
+	"sync/atomic"
 	"time"
 
 	"github.com/vipnode/vipnode/v2/agent"
@@ -415,7 +418,8 @@ func runC15Agent(s *kernel.Sim) {
 	asrv.RegisterMethod("vipnode_whitelist", ag, "Whitelist")
 	remote := &jsonrpc2.Remote{Codec: ae, Server: asrv, Client: &jsonrpc2.Client{}}
 	rp := pool.Remote(remote, key)
-	s.GoBG("agent.serve", func() { remote.Serve() })
+	var serveEnded atomic.Bool
+	s.GoBG("agent.serve", func() { remote.Serve(); serveEnded.Store(true) })
 	s.AllowLeak = true
 	node.Lock()
 	p := ethnode.PeerInfo{ID: hexID(1)}
@@ -473,13 +477,30 @@ func runC15Agent(s *kernel.Sim) {
 	done := false
 	s.Go("driver", func() {
 		defer func() { done = true }()
+		// the hostile pool answers every request at once with a message that carries the request's id: whatever
+		// that message is, it must end the call - a call that only ends by its deadline was never woken up
+		// (a message the codec cannot decode ends the connection: nothing is delivered on it any more)
+		woken := func(what string, err error) {
+			if serveEnded.Load() {
+				return
+			}
+			if err != nil && (strings.Contains(err.Error(), "deadline exceeded") || strings.Contains(err.Error(), "context canceled")) {
+				if os.Getenv("VERIF_STACKS") != "" {
+					buf := make([]byte, 1<<20)
+					os.Stderr.Write(buf[:runtime.Stack(buf, true)])
+				}
+				s.Violate("agent_survives", "a hostile reply carrying the call's id never woke the caller", "%s ended only by its deadline: %v", what, err)
+			}
+		}
 		err := ag.Start(rp)
 		s.TaskLog("driver", "Start -> %v", err)
+		woken("Start", err)
 		for i := 0; i < 4; i++ {
 			ctx, cancel := context.WithTimeout(s.Ctx, 20*time.Second)
 			err := ag.UpdatePeers(ctx, rp)
 			cancel()
 			s.TaskLog("driver", "UpdatePeers -> %v", err)
+			woken("UpdatePeers", err)
 		}
 	})
 	res := s.Drive(kernel.DriveOpts{IdleCap: 2 * time.Minute, Until: func() bool { return done }})
@@ -548,9 +569,10 @@ func okValue(kind string) string {
 
 var badValues = map[string][]string{
 	// (JSON null for a scalar is a don't-care: encoding/json leaves the zero value)
-	"int":     {`"x"`, `true`, `[1]`, `{}`, `1.5`},
+	// (strings that look like a value of the expected type are still strings)
+	"int":     {`"x"`, `true`, `[1]`, `{}`, `1.5`, `"7"`, `"-7"`, `"1569400000000000001"`, `""`, `"0x10"`, `1e400`},
 	"string":  {`5`, `true`, `[]`, `{}`},
-	"bool":    {`"true"`, `1`, `[]`},
+	"bool":    {`"true"`, `1`, `[]`, `0`, `"1"`},
 	"strings": {`"a"`, `[1]`, `{}`, `5`},
 	"intmap":  {`[1]`, `{"k":"v"}`, `"m"`, `7`},
 	"*object": {`5`, `"o"`, `[1]`},
